@@ -234,7 +234,10 @@ func VerifC05_History() {
 // reward still covers every block until the (new) end.
 func VerifC06_AdjustStep() {
 	verifExpect("done", "refused")
-	h := int64(20)
+	// mid-life, in the very block of the end height, or before the pool has started (nobody can be staked
+	// yet, nothing has been released, the budget has to pay the blocks from the START height on)
+	when := verifChoice("when", 3)
+	h := []int64{20, 40, 20}[when]
 	e := newFmEnv(h)
 	zero, one := big.NewInt(0), big.NewInt(1)
 	w := verifPow2(40)
@@ -244,12 +247,20 @@ func VerifC06_AdjustStep() {
 	remaining := verifIntIn("remaining", one, verifPow2(60))
 	released0 := verifIntIn("releasedBefore", zero, w)
 	total := remaining.Add(released0)
-	end := int64(40)
+	start, end := int64(5), int64(40)
 	last := h - gap
+	payFrom := last // the first block the remaining budget still has to pay
+	if when == 2 {
+		start, end, last, payFrom = 30, 50, 0, 30
+		verifAssume(locked.IsZero() && released0.IsZero() && gap == 0)
+	}
 	// F5: the remaining reward covers every block until the end height at the current rate
-	verifAssume(remaining.BigInt().Cmp(verifMul(rpb.BigInt(), big.NewInt(end-last))) >= 0)
+	verifAssume(remaining.BigInt().Cmp(verifMul(rpb.BigInt(), big.NewInt(end-payFrom))) >= 0)
 	rps := verifDec("rps", zero, verifMul(verifPow2(40), verifPow10(18)))
-	st := fmState{locked: locked, total: total, remaining: remaining, rpb: rpb, rps: rps, start: 5, last: last, end: end}
+	if when == 2 {
+		verifAssume(rps.IsZero())
+	}
+	st := fmState{locked: locked, total: total, remaining: remaining, rpb: rpb, rps: rps, start: start, last: last, end: end}
 	e.seedPool(st)
 	e.bank.fund(vModuleAddr(types.ModuleName), fmLpt, locked)
 	e.bank.fund(vModuleAddr(types.ModuleName), fmReward, remaining)
@@ -298,9 +309,13 @@ func VerifC06_AdjustStep() {
 	}
 	verifAssert(rule.RewardPerBlock.Equal(wantRate), "the new rate is recorded")
 	verifAssert(pool.LastHeightDistrRewards == h, "the pool is settled up to now")
-	verifAssert(pool.EndHeight >= h, "the end height never lies in the past")
+	verifAssert(pool.EndHeight >= h && pool.EndHeight >= pool.StartHeight && pool.StartHeight == start, "the end height never lies in the past; the start height is kept")
 	// F5 re-established: remaining covers every block until the new end at the new rate
-	verifAssert(rule.RemainingReward.BigInt().Cmp(verifMul(wantRate.BigInt(), big.NewInt(0).SetInt64(pool.EndHeight-h))) >= 0, "F5 the remaining reward covers every block until the new end height")
+	from := h
+	if start > h {
+		from = start
+	}
+	verifAssert(rule.RemainingReward.BigInt().Cmp(verifMul(wantRate.BigInt(), big.NewInt(0).SetInt64(pool.EndHeight-from))) >= 0, "F5 the remaining reward covers every block until the new end height")
 	st2 := e.store()
 	verifAssert(st2.Has(types.KeyActiveFarmPool(pool.EndHeight, e.poolID)) && (pool.EndHeight == end || !st2.Has(types.KeyActiveFarmPool(end, e.poolID))), "F4 the pool is queued exactly at its end height")
 }
